@@ -8,7 +8,8 @@ EXPLANATION = ("Static MIR census over the workspace (mla, mlar, mla-bindings-c)
                "byteorder / bincode (which loop over short writes); (R13.3) every raw Read::read count is used -- returned by an `impl Read::read`-style "
                "body or accumulated into an offset inside a fill loop -- and chunk loads feeding decrypt come from read_to_end(take(inner, const)); "
                "(R13.4) an `impl Read::read` returning a count produced by BrotliDecompressStream excludes 0 before returning Ok(count) mid-stream. "
-               "Equality of the resulting archives is runtime and not decided.")
+               "(R13.5) every block decompressor of the compression reader is built on an inner reader that sync_inner_with_uncompressed_pos has just positioned absolutely "
+               "(never where the previous decompressor happened to stop). Equality of the resulting archives is runtime and not decided.")
 TRUSTED = ['brotli: BrotliResult::NeedsMoreOutput is returned only when the output window is full', 'rustc MIR', 'std::io::Write::write_all / io::copy / Read::read_exact / read_to_end loop over partial transfers and retry Interrupted', 'byteorder, bincode use the complete forms']
 ASSUMPTIONS = ['a sink or source respects the Read/Write contracts (count <= buffer length)']
 
